@@ -2,7 +2,12 @@
 // case kind = kf | ukf | boot | gpf | boot2 (bootstrap filter whose exogenous model is handed to the
 // two-argument constructor DrawParticles(state_model, exogenous_model) instead of StateModel::add_exogenous_model); meta exo=0|1, inner=kf|ukf (gpf only), np (particles / components)
 // mats F Q (n x n), H (m x n), R (m x m), y (m x 1), noise (n x 1), optional B (n x n), c (n x 1); int seed;
-// word ops: "<name>:on" | "<name>:off" | "predict" | "correct".
+// kind ukfg: GaussianFilter with the GENERIC UKFPrediction constructor (std::unique_ptr<StateModel>, noise-augmented
+// sigma points, StateModel::motion) and SUKFCorrection as correction step.
+// meta lin, circ, quat: layout of the beliefs (dim_linear, dim_circular, use_quaternion); F is dim x dim, Q is
+// dim_covariance x dim_covariance.
+// word ops: "<name>:on" | "<name>:off" | "predict" | "correct" | "predict!" | "correct!"; with "!" the output object
+// handed to the step has ANOTHER shape (2 more components, 1 more linear dimension, no circular part) than the input.
 // The commands go through GaussianFilter::skip / ParticleFilter::skip (a GaussianFilter subclass, an
 // SIS subclass; the filtering thread is never started); predict / correct are called on the filter's
 // own prediction and correction steps with fresh random beliefs.  Per operation one token is printed:
@@ -29,6 +34,7 @@
 #include <BayesFilters/ParticleSetInitialization.h>
 #include <BayesFilters/Resampling.h>
 #include <BayesFilters/SIS.h>
+#include <BayesFilters/SUKFCorrection.h>
 #include <BayesFilters/UKFCorrection.h>
 #include <BayesFilters/UKFPrediction.h>
 #include <functional>
@@ -45,14 +51,32 @@ struct AffineExo : public ExogenousModel {
     VectorDescription getStateDescription() const override { return VectorDescription(B_.rows()); }
 };
 
-// LTI state model with a history-independent "noise sample" (so that a twin that executed a
-// different number of steps still draws the same numbers) and a deterministic transition probability
-struct TState : public LTIStateModel {
-    long n_; MatrixXd noise_;
-    TState(const MatrixXd& F, const MatrixXd& Q, const MatrixXd& noise) : LTIStateModel(F, Q), n_(F.rows()), noise_(noise) {}
-    VectorDescription getStateDescription() override { return VectorDescription(n_); }
+struct Layout {
+    long lin, circ; bool quat;
+    long dim() const { return lin + circ * (quat ? 4 : 1); }
+    long dim_cov() const { return lin + circ * (quat ? 3 : 1); }
+    VectorDescription desc() const {
+        return VectorDescription(lin, circ, 0, quat ? VectorDescription::CircularType::Quaternion : VectorDescription::CircularType::Euler);
+    }
+};
+static Layout layout_of(const vf::Case& c) {
+    Layout l; l.circ = c.mi("circ", 0); l.quat = c.mi("quat", 0) != 0; l.lin = c.has_mat("F") ? c.mat("F").rows() - l.circ * (l.quat ? 4 : 1) : 0;
+    return l;
+}
+
+// linear state model (F of size dim, Q of size dim_covariance) with a history-independent "noise sample"
+// (so that a twin that executed a different number of steps still draws the same numbers) and a
+// deterministic transition probability
+struct TState : public LinearStateModel {
+    MatrixXd F_, Q_, noise_; Layout l_;
+    TState(const MatrixXd& F, const MatrixXd& Q, const MatrixXd& noise, const Layout& l) : F_(F), Q_(Q), noise_(noise), l_(l) {}
+    MatrixXd getStateTransitionMatrix() override { return F_; }
+    MatrixXd getNoiseCovarianceMatrix() override { return Q_; }
+    MatrixXd getJacobian() override { return F_; }
+    bool setProperty(const std::string&) override { return false; }
+    VectorDescription getStateDescription() override { return l_.desc(); }
     MatrixXd getNoiseSample(const std::size_t num) override {
-        MatrixXd r(n_, num);
+        MatrixXd r(F_.rows(), num);
         for (std::size_t j = 0; j < num; j++) r.col(j) = noise_ * (1.0 + 0.25 * static_cast<double>(j));
         return r;
     }
@@ -64,12 +88,26 @@ struct TState : public LTIStateModel {
     }
 };
 
+// the same model seen as a generic (non-additive) StateModel: the noise enters through the
+// augmented input of motion() (linear / Euler layouts: noise dimension = state dimension)
+struct GenState : public TState {
+    using TState::TState;
+    void motion(const Ref<const MatrixXd>& cur, Ref<MatrixXd> mot) override {
+        const long d = F_.rows();
+        MatrixXd x = cur.topRows(d);
+        MatrixXd out(d, cur.cols()); out.setConstant(-11.5);
+        propagate(x, out);
+        mot = out + cur.bottomRows(cur.rows() - d);
+    }
+};
+
 struct TMeas : public LTIMeasurementModel {
     MatrixXd y_;
-    TMeas(const MatrixXd& H, const MatrixXd& R, const MatrixXd& y) : LTIMeasurementModel(H, R), y_(y) {}
+    TMeas(const MatrixXd& H, const MatrixXd& R, const MatrixXd& y, const Layout& l) : LTIMeasurementModel(H, R), y_(y), l_(l) {}
     bool freeze(const Data&) override { return true; }
     std::pair<bool, Data> measure(const Data&) const override { return std::make_pair(true, Data(y_)); }
-    VectorDescription getInputDescription() const override { return VectorDescription(H_.cols()); }
+    Layout l_;
+    VectorDescription getInputDescription() const override { return l_.desc(); }
     VectorDescription getMeasurementDescription() const override { return VectorDescription(H_.rows()); }
 };
 
@@ -85,8 +123,8 @@ struct GF : public GaussianFilter {
 };
 
 struct PF : public SIS {
-    PF(unsigned np, std::size_t n, std::unique_ptr<PFPrediction> p, std::unique_ptr<PFCorrection> c)
-        : SIS(np, n, std::unique_ptr<ParticleSetInitialization>(new NoInit()), std::move(p), std::move(c), std::unique_ptr<Resampling>(new Resampling(1))) {}
+    PF(unsigned np, const Layout& l, std::unique_ptr<PFPrediction> p, std::unique_ptr<PFCorrection> c)
+        : SIS(np, l.lin, l.circ, std::unique_ptr<ParticleSetInitialization>(new NoInit()), std::move(p), std::move(c), std::unique_ptr<Resampling>(new Resampling(1))) {}
     bool run_condition() override { return false; }
     PFPrediction& P() { return prediction(); }
     PFCorrection& C() { return correction(); }
@@ -95,45 +133,48 @@ struct PF : public SIS {
 struct Setup {
     const vf::Case& c;
     bool exo;
-    explicit Setup(const vf::Case& cc, bool e) : c(cc), exo(e) {}
-    template <typename SM> std::unique_ptr<SM> state() const {
-        std::unique_ptr<TState> s(new TState(c.mat("F"), c.mat("Q"), c.mat("noise")));
+    Layout l;
+    explicit Setup(const vf::Case& cc, bool e) : c(cc), exo(e), l(layout_of(cc)) {}
+    template <typename SM, typename Impl = TState> std::unique_ptr<SM> state() const {
+        std::unique_ptr<TState> s(new Impl(c.mat("F"), c.mat("Q"), c.mat("noise"), l));
         if (exo) s->add_exogenous_model(std::unique_ptr<ExogenousModel>(new AffineExo(c.mat("B"), c.mat("c"))));
         return std::unique_ptr<SM>(s.release());
     }
-    template <typename MM> std::unique_ptr<MM> meas() const { return std::unique_ptr<MM>(new TMeas(c.mat("H"), c.mat("R"), c.mat("y"))); }
+    template <typename MM> std::unique_ptr<MM> meas() const { return std::unique_ptr<MM>(new TMeas(c.mat("H"), c.mat("R"), c.mat("y"), l)); }
     std::unique_ptr<GaussianPrediction> gpred(const std::string& k) const {
         if (k == "kf") return std::unique_ptr<GaussianPrediction>(new KFPrediction(state<LinearStateModel>()));
+        if (k == "ukfg") return std::unique_ptr<GaussianPrediction>(new UKFPrediction(state<StateModel, GenState>(), 1.0, 2.0, 0.0));   // generic constructor
         return std::unique_ptr<GaussianPrediction>(new UKFPrediction(state<AdditiveStateModel>(), 1.0, 2.0, 0.0));
     }
     std::unique_ptr<GaussianCorrection> gcorr(const std::string& k) const {
         if (k == "kf") return std::unique_ptr<GaussianCorrection>(new KFCorrection(meas<LinearMeasurementModel>()));
+        if (k == "ukfg") return std::unique_ptr<GaussianCorrection>(new SUKFCorrection(meas<AdditiveMeasurementModel>(), 1.0, 2.0, 0.0, 1, false));
         return std::unique_ptr<GaussianCorrection>(new UKFCorrection(meas<AdditiveMeasurementModel>(), 1.0, 2.0, 0.0));
     }
     std::unique_ptr<GF> gaussian(const std::string& k) const { return std::unique_ptr<GF>(new GF(gpred(k), gcorr(k))); }
     std::unique_ptr<PF> particle(const std::string& k, unsigned np) const {
-        const std::size_t n = c.mat("F").rows();
         if (k == "boot2") {
             // the exogenous model goes to DrawParticles' own constructor, the state model gets none
-            std::unique_ptr<StateModel> sm(new TState(c.mat("F"), c.mat("Q"), c.mat("noise")));
+            std::unique_ptr<StateModel> sm(new TState(c.mat("F"), c.mat("Q"), c.mat("noise"), l));
             std::unique_ptr<PFPrediction> dp(exo ? new DrawParticles(std::move(sm), std::unique_ptr<ExogenousModel>(new AffineExo(c.mat("B"), c.mat("c"))))
                                                  : new DrawParticles(std::move(sm)));
-            return std::unique_ptr<PF>(new PF(np, n, std::move(dp),
+            return std::unique_ptr<PF>(new PF(np, l, std::move(dp),
                                               std::unique_ptr<PFCorrection>(new BootstrapCorrection(meas<MeasurementModel>(), std::unique_ptr<LikelihoodModel>(new GaussianLikelihood())))));
         }
         if (k == "boot")
-            return std::unique_ptr<PF>(new PF(np, n, std::unique_ptr<PFPrediction>(new DrawParticles(state<StateModel>())),
+            return std::unique_ptr<PF>(new PF(np, l, std::unique_ptr<PFPrediction>(new DrawParticles(state<StateModel>())),
                                               std::unique_ptr<PFCorrection>(new BootstrapCorrection(meas<MeasurementModel>(), std::unique_ptr<LikelihoodModel>(new GaussianLikelihood())))));
         const std::string inner = c.m("inner", "kf");
-        return std::unique_ptr<PF>(new PF(np, n, std::unique_ptr<PFPrediction>(new GPFPrediction(gpred(inner))),
+        return std::unique_ptr<PF>(new PF(np, l, std::unique_ptr<PFPrediction>(new GPFPrediction(gpred(inner))),
                                           std::unique_ptr<PFCorrection>(new GPFCorrection(std::unique_ptr<LikelihoodModel>(new GaussianLikelihood()), gcorr(inner),
                                                                                           state<StateModel>(), 7u))));
     }
 };
 
 static bool eq(const GaussianMixture& a, const GaussianMixture& b) {
-    return a.components == b.components && a.dim == b.dim && vf::bit_equal(a.mean(), b.mean()) && vf::bit_equal(a.covariance(), b.covariance())
-           && vf::bit_equal(a.weight(), b.weight());
+    return a.components == b.components && a.dim == b.dim && a.dim_linear == b.dim_linear && a.dim_circular == b.dim_circular
+           && a.dim_noise == b.dim_noise && a.dim_covariance == b.dim_covariance && a.use_quaternion == b.use_quaternion
+           && vf::bit_equal(a.mean(), b.mean()) && vf::bit_equal(a.covariance(), b.covariance()) && vf::bit_equal(a.weight(), b.weight());
 }
 static bool eq(const ParticleSet& a, const ParticleSet& b) {
     return eq(static_cast<const GaussianMixture&>(a), static_cast<const GaussianMixture&>(b)) && vf::bit_equal(a.state(), b.state());
@@ -146,15 +187,25 @@ struct Rng {
     MatrixXd mat(long r, long c, double s = 1.0) { MatrixXd m(r, c); for (long i = 0; i < r; i++) for (long j = 0; j < c; j++) m(i, j) = s * (*this)(); return m; }
 };
 
+static void unit_quaternions(Ref<MatrixXd> m, long lin, long circ) {
+    for (long j = 0; j < m.cols(); j++) for (long q = 0; q < circ; q++) {
+        double nrm = m.col(j).segment(lin + 4 * q, 4).norm();
+        if (nrm < 1e-3) { m.col(j).segment(lin + 4 * q, 4) << 1.0, 0.0, 0.0, 0.0; } else m.col(j).segment(lin + 4 * q, 4) /= nrm;
+    }
+}
 static void fill_gm(GaussianMixture& g, Rng& r) {
-    const long n = g.dim, k = g.components;
-    g.mean() = r.mat(n, k, 3.0);
-    for (long i = 0; i < k; i++) { MatrixXd a = r.mat(n, n); g.covariance(i) = a * a.transpose() + 0.5 * MatrixXd::Identity(n, n); }
+    const long n = g.dim, k = g.components, dc = g.dim_covariance;
+    g.mean() = r.mat(n, k, g.dim_circular > 0 ? 1.0 : 3.0);
+    if (g.use_quaternion) unit_quaternions(g.mean(), g.dim_linear, g.dim_circular);
+    for (long i = 0; i < k; i++) { MatrixXd a = r.mat(dc, dc, g.dim_circular > 0 ? 0.3 : 1.0); g.covariance(i) = a * a.transpose() + 0.5 * MatrixXd::Identity(dc, dc) * (g.dim_circular > 0 ? 0.1 : 1.0); }
     VectorXd w(k); for (long i = 0; i < k; i++) w(i) = std::abs(r()) + 0.1;
     g.weight() = (w / w.sum()).array().log().matrix();
 }
 static void fill(GaussianMixture& g, Rng& r) { fill_gm(g, r); }
-static void fill(ParticleSet& p, Rng& r) { fill_gm(p, r); p.state() = r.mat(p.dim, p.components, 3.0); }
+static void fill(ParticleSet& p, Rng& r) {
+    fill_gm(p, r); p.state() = r.mat(p.dim, p.components, p.dim_circular > 0 ? 1.0 : 3.0);
+    if (p.use_quaternion) unit_quaternions(p.state(), p.dim_linear, p.dim_circular);
+}
 static void junk(GaussianMixture& g) { g.mean().setConstant(7.25); g.covariance().setConstant(-3.5); g.weight().setConstant(0.125); }
 static void junk(ParticleSet& p) { junk(static_cast<GaussianMixture&>(p)); p.state().setConstant(-11.5); }
 
@@ -162,7 +213,7 @@ static void junk(ParticleSet& p) { junk(static_cast<GaussianMixture&>(p)); p.sta
 // exogenous contribution plus the noise sample, weights are copied, mean / covariance are not written
 static bool exo_only_match(const vf::Case& c, const ParticleSet& in, const ParticleSet& out) {
     const long n = in.dim, np = in.components;
-    TState ns(c.mat("F"), c.mat("Q"), c.mat("noise"));
+    TState ns(c.mat("F"), c.mat("Q"), c.mat("noise"), layout_of(c));
     ParticleSet o(np, n); junk(o);
     MatrixXd st = c.mat("B") * in.state() + c.mat("c").replicate(1, np);
     st += ns.getNoiseSample(np);
@@ -175,7 +226,7 @@ static bool exo_only_match(const vf::Case&, const GaussianMixture&, const Gaussi
 template <typename Filter, typename Belief, typename Make>
 static std::vector<std::string> run_word(const vf::Case& c, Make make, bool exo, const std::string& cfg,
                                          const std::vector<std::string>& ops, unsigned long seed, bool& inputs_kept) {
-    const long n = c.mat("F").rows(); const long np = c.mi("np", 3);
+    const Layout l = layout_of(c); const long n = l.dim(); const long np = c.mi("np", 3);
     std::unique_ptr<Filter> subp = make(exo), twinp = make(exo), t0p;
     if (exo) t0p = make(false);
     Filter& sub = *subp; Filter& twin = *twinp; Filter* twin_noexo = t0p.get();
@@ -190,21 +241,24 @@ static std::vector<std::string> run_word(const vf::Case& c, Make make, bool exo,
     trace.push_back("init," + flags());
     sub.C().freeze_measurements(); twin.C().freeze_measurements();
     if (twin_noexo) twin_noexo->C().freeze_measurements();
-    for (const std::string& op : ops) {
+    for (const std::string& op0 : ops) {
+        const bool other_shape = !op0.empty() && op0[op0.size() - 1] == '!';
+        const std::string op = other_shape ? op0.substr(0, op0.size() - 1) : op0;
         if (op == "predict" || op == "correct") {
-            Belief in(np, n); fill(in, rng);
+            Belief in(np, l.lin, l.circ, l.quat); fill(in, rng);
             Belief in_copy(in);
-            Belief out(np, n); junk(out);
+            // the output object: the input's shape, or (for "!") two more components, one more dimension, all linear
+            Belief out = other_shape ? Belief(np + 2, n + 1) : Belief(np, l.lin, l.circ, l.quat); junk(out);
             std::string tok;
             if (op == "predict") {
                 { vf::Entry e("Prediction::predict"); sub.P().predict(in, out); }
                 if (eq(out, in)) tok = "identity";
                 else {
-                    Belief o2(np, n); junk(o2); twin.P().predict(in, o2);
+                    Belief o2(np, l.lin, l.circ, l.quat); junk(o2); twin.P().predict(in, o2);
                     if (eq(out, o2)) tok = "full";
                     else {
                         tok = "other";
-                        if (twin_noexo) { Belief o3(np, n); junk(o3); twin_noexo->P().predict(in, o3); if (eq(out, o3)) tok = "stateonly"; }
+                        if (twin_noexo) { Belief o3(np, l.lin, l.circ, l.quat); junk(o3); twin_noexo->P().predict(in, o3); if (eq(out, o3)) tok = "stateonly"; }
                         if (tok == "other" && exo && (cfg == "boot" || cfg == "boot2") && exo_only_match(c, in, out)) tok = "exoonly";
                     }
                 }
@@ -213,7 +267,7 @@ static std::vector<std::string> run_word(const vf::Case& c, Make make, bool exo,
                 if (eq(out, in)) tok = "identity";
                 else {
                     // the twin executes exactly the corrections the subject executes (keeps seeded generators in step)
-                    Belief o2(np, n); junk(o2); twin.C().correct(in, o2);
+                    Belief o2(np, l.lin, l.circ, l.quat); junk(o2); twin.C().correct(in, o2);
                     tok = eq(out, o2) ? "run" : "other";
                 }
             }
@@ -276,7 +330,7 @@ int main() {
         const bool exo = c.mi("exo") != 0;
         const unsigned np = static_cast<unsigned>(c.mi("np", 3));
         const std::string kind = c.kind;
-        if (kind == "kf" || kind == "ukf") {
+        if (kind == "kf" || kind == "ukf" || kind == "ukfg") {
             auto make = [&](bool e) { return Setup(c, e).gaussian(kind); };
             drive<GF, GaussianMixture>(c, make, exo, kind);
         } else {
